@@ -79,7 +79,8 @@ def _strategy(draw):
     pfail = draw(st.sampled_from([0.2, 0.5, 0.8]))
     schedule = [1 if draw(st.integers(0, 99)) < pfail * 100 else 0 for _ in range(length)]
     return {"layer": "system", "mols": mols, "nrewind": draw(st.integers(1, 5)), "schedule": schedule,
-            "maxiter_mol": draw(st.integers(0, 3)), "rng": draw(st.integers(0, 2**31 - 1))}
+            "maxiter_mol": draw(st.integers(0, 3)), "rng": draw(st.integers(0, 2**31 - 1)),
+            "dummies": 5001 if draw(st.integers(0, 19)) == 0 else 0}
 
 
 def strategy(tier):
@@ -129,7 +130,7 @@ class Recorder:
         return self.orig_remove(mol_idx, node_keys)
 
 
-def make_engine(mols):
+def make_engine(mols, dummies=0):
     from polyply.src.nonbond_engine import NonBondEngine
     nodes_to_idx, atypes = {}, []
     idx = 0
@@ -138,7 +139,16 @@ def make_engine(mols):
             nodes_to_idx[(mol_idx, node)] = idx
             atypes.append("A")
             idx += 1
+    first_dummy = idx
+    for k in range(dummies):
+        nodes_to_idx[(999, k)] = idx
+        atypes.append("A")
+        idx += 1
     positions = np.ones((idx, 3)) * np.inf
+    for k in range(dummies):
+        # one layer of beads on the plane x = 29.5 (0.4 nm apart): a surrounding big enough for the engine to
+        # open another search tree when the next molecule is started
+        positions[first_dummy + k] = np.array([29.5, 0.2 + 0.4 * (k % 74), 0.2 + 0.4 * (k // 74)])
     for mol_idx, (meta, pos) in enumerate(mols):
         for node, p in pos.items():
             positions[nodes_to_idx[(mol_idx, node)]] = p
@@ -159,7 +169,9 @@ def check(spec, ctx):
     else:
         mol_specs = spec["mols"]
     mols = [build_molecule(m["shape"], m["pre"], i, 0.0) for i, m in enumerate(mol_specs)]
-    engine = make_engine(mols)
+    engine = make_engine(mols, dummies=spec.get("dummies", 0))
+    if spec.get("dummies"):
+        ctx.label("large_surrounding")
     rec = Recorder(engine)
     schedule = list(spec["schedule"])
     state = {"calls": 0, "fails": 0, "rewinds": 0, "abandons": 0, "attempt": None, "accepted": {}}
